@@ -55,11 +55,13 @@ func init() {
 			return 96
 		},
 		Run: runRace,
+		// batches_committed is fixed by the generator; the snapshot counters depend on the scheduler, so their floors
+		// are a third / a quarter of the minimum seen over VERIF_SEED=1..5 instead of a half
 		Floors: func(tier string) map[string]int64 {
 			if tier == "thorough" {
-				return map[string]int64{"snapshots_judged": 40000, "snapshots_mid_history": 8000, "batches_committed": 40000, "cases_memdb": 300, "cases_goleveldb": 300}
+				return map[string]int64{"snapshots_judged": 130000, "snapshots_mid_history": 50000, "batches_committed": 80000, "cases_memdb": 600, "cases_goleveldb": 600, "cases_prefixview": 250}
 			}
-			return map[string]int64{"snapshots_judged": 2500, "snapshots_mid_history": 500, "batches_committed": 2500, "cases_memdb": 20, "cases_goleveldb": 20}
+			return map[string]int64{"snapshots_judged": 8000, "snapshots_mid_history": 3000, "batches_committed": 5000, "cases_memdb": 40, "cases_goleveldb": 40, "cases_prefixview": 14}
 		},
 		PanicIsViolation: true, // "DBs are goroutine safe": a fatal concurrent map access is a refutation
 		Init:             core.QuietLogs,
